@@ -245,25 +245,17 @@ func runW4C19(t *testing.T, job *Job, seed uint64, rp *Replay) RunOut {
 		// the watcher is started from a task of its own, so that everything it starts can be told apart
 		var changes <-chan bool
 		hostID := ""
-		returned := false
+		returned := make(chan struct{})
 		simrt.Go("watcherhost", func() {
 			hostID = simrt.SelfID()
 			changes = config.DetectDeviceConfigChanges(ctx)
-			mu.Lock()
-			returned = true
-			mu.Unlock()
+			simrt.Close(returned)
 		})
 		if ops.EarlyWrites {
-			// only until the call has returned: what its goroutines still have to do is their business
-			for {
-				mu.Lock()
-				r := returned
-				mu.Unlock()
-				if r {
-					break
-				}
-				simrt.Yield("h.wait")
-			}
+			// only until the call has returned: what its goroutines still have to do is their business (a blocking
+			// receive, not a polling loop: under a scheduling policy that prefers the running task a loop of yields
+			// would never let the call run)
+			simrt.Recv(returned)
 		} else {
 			// let the watcher register its four directories
 			simrt.WaitIdle()
